@@ -14,6 +14,17 @@ use tiny_http::verif_rt::core::RunCfg;
 
 pub struct C14;
 
+/// This check is cheap: the quick tier already runs the full alphabet (what used to be the
+/// thorough tier); `deep` marks the extras that only the thorough tier adds.
+#[allow(dead_code)]
+fn full(_t: Tier) -> bool {
+    true
+}
+#[allow(dead_code)]
+fn deep(t: Tier) -> bool {
+    t == Tier::Thorough
+}
+
 #[derive(Clone, Debug)]
 struct Case {
     class: String,
@@ -50,9 +61,9 @@ fn mk(class: &str, bytes: Vec<u8>, plan: &ReqPlan, end: Step) -> Case {
 fn cases(tier: Tier) -> &'static Vec<Case> {
     static Q: OnceLock<Vec<Case>> = OnceLock::new();
     static T: OnceLock<Vec<Case>> = OnceLock::new();
-    let cell = if tier == Tier::Quick { &Q } else { &T };
+    let cell = if !full(tier) { &Q } else { &T };
     cell.get_or_init(|| {
-        let thorough = tier == Tier::Thorough;
+        let thorough = full(tier);
         let mut v = Vec::new();
         let hs = handlers();
         // ---- declared Content-Length vs bytes actually sent
@@ -253,13 +264,14 @@ fn run_case(c: &Case, acc: &mut Acc, trace: bool) {
     // per-line bookkeeping (a 4-byte header line costs two small heap strings, here and in
     // the observation) makes the constant of proportionality large, but it is a constant
     let peak_bound = ov + SLACK + 64 * received;
-    let single_bound = SLACK + 4 * received;
+    // (10^4 tiny header lines: the Vec of 48-byte Header structs alone is ~6 x the bytes received)
+    let single_bound = SLACK + 16 * received;
     if !res.panics.is_empty() {
         // the panic is the verdict; capturing its backtrace allocates megabytes by itself
     } else if largest > single_bound {
         fails.push((
             format!("allocation:{}", c.class),
-            format!("a single allocation of {} bytes although the client sent only {} bytes (bound 64 KiB + 4 x received)", largest, received),
+            format!("a single allocation of {} bytes although the client sent only {} bytes (bound 64 KiB + 16 x received)", largest, received),
         ));
     } else if peak > peak_bound {
         fails.push((
@@ -321,8 +333,8 @@ impl Check for C14 {
     fn rule(&self, tier: Tier) -> String {
         let classes: std::collections::BTreeSet<String> = cases(tier).iter().map(|c| c.class.clone()).collect();
         format!(
-            "adversarial conversations in {} classes ({:?}...): Content-Length from 0 to 10^30 x bytes actually sent {{0, 3, all}}; chunk-size lines of 1..40 hex digits truncated at every syntactic position; a chunked conversation cut at every offset; 10^3{} header lines; lines of {} bytes; NUL/control/8-bit/CR/LF/SP/colon at every position of a head; TE request header values of the malformed-q class; client reset/closed before the server looks at the connection (TCP-like and UNIX-like) - crossed with handlers read none / 1 byte / all x respond / drop; {} scenarios, each run in a worker process with a 6 GiB address-space cap; oracle: the worker survives, no panic passes through tiny_http code, largest single allocation <= 64 KiB + 4 x bytes received, peak heap <= harness footprint + 64 KiB + 64 x bytes received",
-            classes.len(), classes.iter().take(6).collect::<Vec<_>>(), if tier == Tier::Thorough { "/10^4" } else { "" }, if tier == Tier::Thorough { "1 MiB" } else { "128 KiB" }, cases(tier).len()
+            "adversarial conversations in {} classes ({:?}...): Content-Length from 0 to 10^30 x bytes actually sent {{0, 3, all}}; chunk-size lines of 1..40 hex digits truncated at every syntactic position; a chunked conversation cut at every offset; 10^3{} header lines; lines of {} bytes; NUL/control/8-bit/CR/LF/SP/colon at every position of a head; TE request header values of the malformed-q class; client reset/closed before the server looks at the connection (TCP-like and UNIX-like) - crossed with handlers read none / 1 byte / all x respond / drop; {} scenarios, each run in a worker process with a 6 GiB address-space cap; oracle: the worker survives, no panic passes through tiny_http code, largest single allocation <= 64 KiB + 16 x bytes received, peak heap <= harness footprint + 64 KiB + 64 x bytes received",
+            classes.len(), classes.iter().take(6).collect::<Vec<_>>(), if full(tier) { "/10^4" } else { "" }, if full(tier) { "1 MiB" } else { "128 KiB" }, cases(tier).len()
         )
     }
     fn assumptions(&self) -> Vec<String> {
